@@ -86,6 +86,9 @@ fn judge<C: Serialize + std::fmt::Debug>(id: &str, sub: &str, case: &C, v: Verdi
 pub fn one(id: &str, sub: &str, data: &[u8]) {
     install_panic_hook_once();
     EXECS.fetch_add(1, Ordering::Relaxed);
+    if id == "C05" {
+        install_log_sink();
+    }
     match (id, sub) {
         ("C05", "inbound") => {
             if let Some(c) = props::c05::decode_inbound(data) {
